@@ -8,6 +8,8 @@ mod genseq;
 mod unit;
 mod json;
 mod evalu;
+mod conc;
+mod replayt;
 
 use std::io::{BufRead, Write};
 
@@ -82,7 +84,9 @@ fn main() {
             let mut n = 0;
             for line in f.lines() {
                 let line = line.unwrap();
-                if let Some(a) = un.exec_line(&line).or_else(|| evalu::exec_line(&mut un, &line)) {
+                if let Some(a) = un.exec_line(&line).or_else(|| evalu::exec_line(&mut un, &line)).or_else(|| {
+                    replayt::exec_line(&mut un, &line, &arg_s(&args, "--bin", "/verif/harness/target-replay/debug/replay"), &arg_s(&args, "--work", "/verif/.work"))
+                }) {
                     eng.line += 1;
                     for mut v in un.violations.drain(..) {
                         v.line = eng.line;
@@ -147,6 +151,64 @@ fn main() {
             );
             println!("{}", summary(&eng, em.nlines, &extra));
         }
+        "conc" => {
+            let seed: u64 = arg(&args, "--seed", 1);
+            let scenarios: usize = arg(&args, "--scenarios", 6);
+            let bound: usize = arg(&args, "--bound", 2);
+            let max_dfs: usize = arg(&args, "--dfs", 60);
+            let randoms: usize = arg(&args, "--random", 20);
+            let freezes: usize = arg(&args, "--freeze", 6);
+            let crash_every: usize = arg(&args, "--crash-every", 0);
+            let kind: i64 = arg(&args, "--kind", -1);
+            let out = arg_s(&args, "--out", "/tmp/conc");
+            let replay = arg_s(&args, "--replay", "");
+            let mut ex = conc::Explore { runs: 0, events: 0, crash_points: 0, freeze_runs: 0, max_solo: 0, violations: vec![], known: vec![],
+                lines: vec![], run_starts: vec![], sigs: Default::default() };
+            if !replay.is_empty() {
+                // replay file: scenario lines + `schedule t t t ...`
+                let text = std::fs::read_to_string(&replay).expect("replay file");
+                let lines: Vec<String> = text.lines().map(|l| l.to_string()).collect();
+                let sc = conc::Scenario::from_text(&lines).expect("scenario");
+                let sched: Vec<usize> = lines.iter().find_map(|l| l.strip_prefix("schedule ")).map(|r| r.split_whitespace().filter_map(|x| x.parse().ok()).collect()).unwrap_or_default();
+                let crash = arg(&args, "--crash-every", 1);
+                if let Some(r) = conc::run(&sc, &conc::Strategy::Prefix(sched), crash) {
+                    ex.runs = 1;
+                    ex.events = r.events.len();
+                    let schedule: Vec<usize> = r.choices.iter().map(|c| c.1).collect();
+                    for v in r.violations {
+                        ex.violations.push((v, sc.to_text(), schedule.clone()));
+                    }
+                    ex.known = r.known;
+                    ex.lines = r.lines;
+                    ex.run_starts = vec![0];
+                }
+            } else {
+                let mut rng = Rng(seed ^ 0xc0c0);
+                for i in 0..scenarios {
+                    let k = if kind >= 0 { kind as usize } else { i };
+                    let sc = conc::gen_scenario(&mut rng, k);
+                    conc::explore(&sc, &mut ex, bound, max_dfs, randoms, freezes, crash_every, rng.next());
+                }
+            }
+            let mut req = String::new();
+            let mut exp = String::new();
+            for (q, a) in &ex.lines {
+                req.push_str(q);
+                req.push('\n');
+                exp.push_str(a);
+                exp.push('\n');
+            }
+            std::fs::write(format!("{out}.req"), req).unwrap();
+            std::fs::write(format!("{out}.exp"), exp).unwrap();
+            let viol: Vec<String> = ex.violations.iter().map(|(v, sc, sched)| {
+                format!("{{\"prop\":\"{}\",\"line\":{},\"msg\":{},\"scenario\":[{}],\"schedule\":[{}]}}", v.prop, v.line, jstr(&v.msg),
+                    sc.iter().map(|l| jstr(l)).collect::<Vec<_>>().join(","), sched.iter().map(|t| t.to_string()).collect::<Vec<_>>().join(","))
+            }).collect();
+            println!("{{\"geom\":[{},{}],\"lines\":{},\"runs\":{},\"events\":{},\"crash_points\":{},\"freeze_runs\":{},\"max_solo_steps\":{},\"distinct_signatures\":{},\"known\":[{}],\"history_starts\":[{}],\"violations\":[{}]}}",
+                llfree::HUGE_ORDER, llfree::TREE_HUGE, ex.lines.len(), ex.runs, ex.events, ex.crash_points, ex.freeze_runs, ex.max_solo, ex.sigs.len(),
+                ex.known.iter().map(|k| jstr(k)).collect::<Vec<_>>().join(","),
+                ex.run_starts.iter().map(|s| s.to_string()).collect::<Vec<_>>().join(","), viol.join(","));
+        }
         "unit" => {
             let what = args.get(2).cloned().unwrap_or_default();
             let seed: u64 = arg(&args, "--seed", 1);
@@ -163,6 +225,11 @@ fn main() {
                 "sbest" => u.sbest(&mut rng, n),
                 "req" => evalu::req(&mut u, &mut rng, n),
                 "meta" => u.meta(&mut rng, n),
+                "replay" => {
+                    let bin = arg_s(&args, "--bin", "/verif/harness/target-replay/debug/replay");
+                    let work = arg_s(&args, "--work", "/verif/.work");
+                    replayt::generate(&mut u, &mut rng, n, &bin, &work)
+                }
                 _ => {
                     eprintln!("unknown unit {what}");
                     std::process::exit(2);
